@@ -187,6 +187,15 @@ func merge[EntityT entity.Interface](def Definition, wrapper func(e *Entity) Ent
 	}
 
 	if fastForwardPossible {
+		// same guard as below: the head read above must still be the head
+		current, err := repo.ResolveRef(localRef)
+		if err != nil {
+			return entity.NewMergeError(err, id)
+		}
+		if current != localCommit {
+			return entity.NewMergeError(fmt.Errorf("the local %s changed during the merge", def.Typename), id)
+		}
+
 		err = repo.UpdateRef(localRef, remoteCommit)
 		if err != nil {
 			return entity.NewMergeError(err, id)
@@ -246,6 +255,16 @@ func merge[EntityT entity.Interface](def Definition, wrapper func(e *Entity) Ent
 		return entity.NewMergeError(err, id)
 	}
 
+	// the local entity may have been committed to since its head was read above (another
+	// goroutine holding it): moving the ref now would drop that commit
+	current, err := repo.ResolveRef(localRef)
+	if err != nil {
+		return entity.NewMergeError(err, id)
+	}
+	if current != localCommit {
+		return entity.NewMergeError(fmt.Errorf("the local %s changed during the merge", def.Typename), id)
+	}
+
 	// finally update the ref
 	err = repo.UpdateRef(localRef, commitHash)
 	if err != nil {
@@ -254,8 +273,16 @@ func merge[EntityT entity.Interface](def Definition, wrapper func(e *Entity) Ent
 
 	// return the merged entity, not the local one as it was before the merge
 	mergedEntity, err := read[EntityT](def, wrapper, repo, resolvers, localRef)
+	if err == nil {
+		// both sides are valid on their own, the union may not be (e.g. the same operation
+		// recorded on both sides in different commits)
+		err = mergedEntity.Validate()
+	}
 	if err != nil {
-		return entity.NewMergeError(err, id)
+		// leave the local entity as it was: the merge commit stays behind, unreachable
+		_ = repo.UpdateRef(localRef, localCommit)
+		return entity.NewMergeInvalidStatus(id,
+			errors.Wrapf(err, "merging the remote %s gives an invalid %s", def.Typename, def.Typename).Error())
 	}
 
 	return entity.NewMergeUpdatedStatus(id, mergedEntity)
